@@ -43,7 +43,18 @@ class ProgGen:
         self.rec = None
         if self.sw["calls"]:
             for i in range(r.randint(1, 2)):
-                h = self.pure_helper(f"h{i}") if r.random() < 0.4 else self.function(f"h{i}", export=False)
+                c = r.random()
+                if c < 0.35:
+                    h = self.pure_helper(f"h{i}")
+                elif c < 0.55 and self.helpers:
+                    h = self.middle_helper(f"h{i}", self.helpers[-1])
+                else:
+                    h = self.function(f"h{i}", export=False)
+                    if r.random() < 0.5:
+                        # the helper assigns to its own parameter (parameters are locals of the
+                        # activation: the caller's argument expression must not be affected)
+                        pn = h["params"][0][0]
+                        h["body"].insert(0, ["assign", ["var", pn], "=", ["bin", "+", ["var", pn], ["lit", r.randint(1, 5)]]])
                 funcs.append(h)
                 self.helpers.append(h)
             arrs = [(n, t) for n, t in globs if t[0] == "arr" and t[1] == "int"]
@@ -116,6 +127,8 @@ class ProgGen:
         if c < 0.58 and self.allow_calls and self.helpers:
             h = r.choice(self.helpers)
             self.made_call = True
+            if r.random() < 0.4:
+                return ["call", h["name"], [["lit", r.randint(0, 5)] for _ in h["params"]]]  # literal-only call site
             return ["call", h["name"], [self.int_expr(env, 2) for _ in h["params"]]]
         op = r.choice(["+", "-", "*", "+", "-"])
         b = self.int_expr(env, depth + 1)
@@ -322,6 +335,15 @@ class ProgGen:
             e = ["bin", "+", e, self.int_expr(env, 1)]
         return {"name": name, "export": False, "params": params, "ret": "int", "body": [["return", e]],
                 "fault": None, "ixsize": None, "pure": True}
+
+    def middle_helper(self, name, callee):
+        """A helper that touches no global itself but calls one that may."""
+        r = self.rng
+        params = [[f"a{i}", "int"] for i in range(r.randint(1, 2))]
+        args = [(["var", r.choice(params)[0]] if r.random() < 0.6 else ["lit", r.randint(0, 9)]) for _ in callee["params"]]
+        return {"name": name, "export": False, "params": params, "ret": "int",
+                "body": [["return", ["bin", "+", ["call", callee["name"], args], ["lit", r.randint(0, 5)]]]],
+                "fault": None, "ixsize": None}
 
     def function(self, name, export):
         r = self.rng
